@@ -36,6 +36,11 @@ class VFS_Real:
     def iswritable(self, selector: str) -> bool:
         return True
 
+    def isrealfs(self) -> bool:
+        """True if getfspath() names a real file of the operating system.
+        Virtual file systems derived from this class must return False."""
+        return type(self) is VFS_Real
+
     def unlink(self, selector: str) -> None:
         filepath = os.fsencode(self.getfspath(selector))
         os.unlink(filepath)
